@@ -609,8 +609,16 @@ def run_c09(ctx, rng, job):
     big = job['tier'] == 'thorough'
     keys = {i: [] for i in range(len(w.regs))}
     skeys = {i: [] for i in range(len(w.regs))}
+    rawreq = {}      # key -> the required sequence as it was passed (None where the caller said None)
     kinds = []
     sibling_removals = 0
+
+    def rq(k):
+        # the required part of an existing key, half of the time as the caller originally wrote it (with None)
+        return rawreq.get(k, k[0]) if rng.random() < 0.5 else k[0]
+
+    def rqs(e):
+        return rawreq.get((e[0], e[1], id(e[2])), e[0]) if rng.random() < 0.5 else e[0]
     for step in range(rng.randint(5, 60 if big else 35)):
         ri = rng.randrange(len(w.regs))
         op = rng.choice(['reg', 'reg', 'reg', 'overwrite', 'same', 'unreg', 'unregv', 'unregeq', 'unregother',
@@ -626,25 +634,26 @@ def run_c09(ctx, rng, job):
                     prov = k[1]
             w.register(ri, req, prov, name, w.newval())
             keys[ri].append((w.norm(req), prov, name))
+            rawreq[(w.norm(req), prov, name)] = req
             op = 'reg'
         elif op == 'overwrite':
             k = rng.choice(cur_keys)
-            w.register(ri, k[0], k[1], k[2], w.newval())
+            w.register(ri, rq(k), k[1], k[2], w.newval())
         elif op == 'same':
             k = rng.choice(cur_keys)
             g0 = w.regs[ri]._generation
-            w.register(ri, k[0], k[1], k[2], w.adapters[ri][k])
+            w.register(ri, rq(k), k[1], k[2], w.adapters[ri][k])
         elif op == 'unreg':
             k = rng.choice(cur_keys)
             sib = any(o is not k and o[0] == k[0] for o in cur_keys)
-            w.unregister(ri, *k)
+            w.unregister(ri, rq(k), k[1], k[2])
             sibling_removals += sib
         elif op == 'regnone':
             k = rng.choice(cur_keys)
-            w.register(ri, k[0], k[1], k[2], None)
+            w.register(ri, rq(k), k[1], k[2], None)
         elif op == 'unregv':
             k = rng.choice(cur_keys)
-            w.unregister(ri, k[0], k[1], k[2], w.adapters[ri][k])
+            w.unregister(ri, rq(k), k[1], k[2], w.adapters[ri][k])
         elif op == 'unregeq':
             k = rng.choice(cur_keys)
             w.unregister(ri, k[0], k[1], k[2], Val(w.adapters[ri][k].k, -1))   # equal, not identical: no-op
@@ -660,13 +669,14 @@ def run_c09(ctx, rng, job):
             v = w.newval()
             w.subscribe(ri, req, prov, v)
             skeys[ri].append((w.norm(req), prov, v))
+            rawreq[(w.norm(req), prov, id(v))] = req
             op = 'sub'
         elif op == 'unsub':
             e = rng.choice(w.subs[ri])
-            w.unsubscribe(ri, e[0], e[1])
+            w.unsubscribe(ri, rqs(e), e[1])
         elif op == 'unsubv':
             e = rng.choice(w.subs[ri])
-            w.unsubscribe(ri, e[0], e[1], Val(e[2].k, -1) if rng.random() < 0.5 else e[2])
+            w.unsubscribe(ri, rqs(e), e[1], Val(e[2].k, -1) if rng.random() < 0.5 else e[2])
         elif op == 'unsubmissing':
             req, prov, _ = w.rand_key(ar=rng.choice([0, 1, 2]))
             w.unsubscribe(ri, req, rng.choice(w.P + [None]), w.newval())
@@ -679,7 +689,11 @@ def run_c09(ctx, rng, job):
         for rr, reg in enumerate(w.regs):
             for k in keys[rr]:
                 ctx.ev()
-                if reg.registered(*k) is not w.adapters[rr].get(k):
+                # asked both with the normalised key and with the key as the caller wrote it (None = Interface)
+                q = rawreq.get(k, k[0]) if rng.random() < 0.5 else k[0]
+                if any(x is None for x in q):
+                    ctx.count('bookkeeping_queries_with_None_required')
+                if reg.registered(q, k[1], k[2]) is not w.adapters[rr].get(k):
                     ctx.violation('registered-mismatch', {'registry': rr, 'key': nm(k[0]) + nm(k[1]) + repr(k[2]),
                                                           'got': repr(reg.registered(*k)), 'expected': repr(w.adapters[rr].get(k))})
             allr = list(reg.allRegistrations())
@@ -696,7 +710,10 @@ def run_c09(ctx, rng, job):
             for (a, b, v) in skeys[rr][-12:]:
                 live = [e for e in w.subs[rr] if len(e[0]) == len(a) and all(x is y for x, y in zip(e[0], a)) and e[1] is b]
                 exp_found = any(e[2] == v for e in live)
-                g = reg.subscribed(a, b, v)
+                q = rawreq.get((a, b, id(v)), a) if rng.random() < 0.5 else a
+                if any(x is None for x in q):
+                    ctx.count('bookkeeping_queries_with_None_required')
+                g = reg.subscribed(q, b, v)
                 ctx.ev()
                 if (g is not None) != exp_found or (g is not None and g is not v):
                     ctx.violation('subscribed-mismatch', {'registry': rr, 'value': repr(v), 'got': repr(g), 'expected_found': exp_found})
